@@ -813,7 +813,11 @@ def loop_certificates(ctx, f, header, body):
                 for x in calls:
                     if x.name.split("::")[-1] in ("push", "insert", "extend", "extend_from_slice", "resize", "append", "push_str") and x.term["args"] and pr.operand(x.term["args"][0]) == mcont.group(1):
                         grows = True
-            if incs and not other_defs and not grows and _loop_cycle_passes(pg, f, header, body, incs):
+            # a count the FILE states (a header word, a freshly read number) is not a bound on the input: it can be
+            # 2^32 whatever the file's size, and every cycle of a parsing loop keeps what it read
+            from prov import expand_var as _expand
+            stated = any(re.search(r"\.num_(dir|fat|difat|minifat)_sectors|read_le_u(16|32|64)\(", e_) and not re.search(r"(^|[(,])(cmp::|Ord::)?min\(", e_) for e_ in _expand(f, bound, pr))
+            if incs and not other_defs and not grows and not stated and _loop_cycle_passes(pg, f, header, body, incs):
                 certs.append("COUNTER(%s < %s)" % (var, bound[:30]))
     # COUNTDOWN: a variable strictly decremented on every cycle, with an exit when it reaches zero
     for (b, k, tgt) in exits:
